@@ -216,7 +216,7 @@ def _oracle(src, ast, extra, parsed):
             def fails(s, a):
                 p = common.impl_parse(s, 0, a.skip)
                 return p[1] is None or G.expected_canon(a) != G.normalise(common.canon_root(p[1]))
-            small, sast = G.shrink(ast, fails, 200)
+            small, sast = G.shrink(ast, fails, 200) if L.may_shrink() else (src, ast)
             return [('tree-mismatch', 'tree differs from the generating tree', {'input': small, 'skip': list(sast.skip),
                                                                                  'original': src[:300]})]
         # names that occur only inside verbatim bodies are not found
